@@ -26,7 +26,30 @@ def _kind(event):
     return 'timed'
 
 
+_snap = None
+
+
+def reset_state():
+    """Module state of athlon_score back to what it was right after import (lazy table not yet built)."""
+    global _snap
+    from vlib.statesnap import Snap
+    if _snap is None:
+        _snap = Snap(mod('athlon_score'))
+    _snap.restore()
+
+
+reset_state()        # snapshot at import, before anything is computed
+
+
 def examine(case):
+    if case.get('cold'):
+        # the call is the FIRST one made after import: lazily built tables do not exist yet
+        reset_state()
+        vs = examine(dict(case, cold=False))
+        for v in vs:
+            v['sig'] = v['sig'] + ['first-call-after-import']
+            v['case'] = case
+        return vs
     g, e, s = case['gender'], case['event'], case['target']
     out = []
     r = call(athlib.athlon_performance_needed, g, e, s)
@@ -94,5 +117,20 @@ def run(ctx):
             ctx.count()
             ctx.label('unknown-pair')
             ctx.violations(examine(case))
+    # every kind of call as the first one after import (the lazily built table does not exist yet): unknown pairs, every
+    # row, other spellings
+    for g, e in UNKNOWN:
+        for s in (-5, 0, 500):
+            case = {'kind': 'needed', 'gender': g, 'event': e, 'target': s, 'unknown': True, 'cold': True}
+            ctx.count()
+            ctx.label('first-call-after-import')
+            ctx.violations(examine(case))
+    for g, e in rows:
+        for gs, es, s in ((g, e, 700), (g.lower(), e.lower(), 1), (g, e, -1)):
+            case = {'kind': 'needed', 'gender': gs, 'event': es, 'target': s, 'cold': True}
+            ctx.count()
+            ctx.label('first-call-after-import')
+            ctx.violations(examine(case))
+    reset_state()
     ctx.extra['rows'] = len(rows)
     ctx.exhaustive = True
